@@ -19,6 +19,7 @@ Definition HG : mutgraph :=
      rd_parent := parent; wr_parent := set_parent;
      rd_kids := kids; wr_kids := set_kids;
      rd_edge := fun _ n => n;
+     rd_taxon := taxon;
      rd_head := fun _ e => e;
      rd_length := elen; wr_length := set_elen;
      rd_seed := seed; wr_seed := set_seed;
@@ -28,6 +29,9 @@ Definition HG : mutgraph :=
      x_suppress_unifurcations := fun h => lift_unit (suppress_unifurcations h);
      x_encode_bipartitions := fun su cb h => lift_unit (encode_structural su cb h);
      x_postorder_nodes := fun h => match abs_at h (seed h) with Some t => Some (post_ids t) | None => None end;
+     x_leaf_nodes := fun h => match abs_at h (seed h) with Some t => Some (leaf_ids t) | None => None end;
+     x_preorder_nodes := fun h => match abs_at h (seed h) with Some t => Some (pre_ids t) | None => None end;
+     x_leaf_nodes_of := fun h c => match abs_at h c with Some t => Some (leaf_ids t) | None => None end;
      x_collapse_basal_bifurcation := fun su h => lift_unit (collapse_basal_bifurcation su h) |}.
 
 (* forget the returned Python value: what Heap.v's functions report *)
@@ -74,3 +78,23 @@ Fixpoint su_steps_ok (l : list Z) (h : heap) : Prop :=
   | nd :: r => memz nd (kids h nd) = false /\
                match su_step nd h with HOk h' => su_steps_ok r h' | _ => True end
   end.
+
+(* one step of the first phase of prune_taxa, as HeapOps.prune_taxa folds it over the post-order *)
+Definition prune_taxa_step (taxa : list Z) (on_leaves on_internal : bool) (nd : Z) (h : heap) : hres :=
+  if ((on_internal && is_internal h nd) || (on_leaves && negb (is_internal h nd)))
+     && (match taxon h nd with Some x => memz x taxa | None => false end)
+  then remove_from_parent AttrErr nd h else HOk h.
+
+(* the condition under which each iteration of a source loop that collapses / splices at the visited
+   node coincides with HeapOps.v's step function f: the visited node is not its own child then *)
+Fixpoint steps_ok (f : Z -> heap -> hres) (l : list Z) (h : heap) : Prop :=
+  match l with
+  | [] => True
+  | nd :: r => memz nd (kids h nd) = false /\
+               match f nd h with HOk h' => steps_ok f r h' | _ => True end
+  end.
+
+(* one step of collapse_unweighted_edges, as HeapOps.v folds it *)
+Definition cue_step (thr : Z) (nd : Z) (h : heap) : hres :=
+  if (match elen h nd with None => true | Some l => l <=? thr end) && is_internal h nd
+  then edge_collapse nd false h else HOk h.
